@@ -494,6 +494,7 @@ def export_plan(rng: common.Rng, thorough: bool) -> list:
     for key in CORPUS:
         if key in by_key:
             plan.append((progs.plugin_desc(by_key[key]), progs.plugin_cfg(by_key[key])))
+    plan.append((progs.gated_desc("softmax", "top", "f16"), dict(progs.default_cfg(), mode="proto")))  # listed defect
     core = progs.core_programs(rng, n_random=10 if not thorough else 80, max_depth=3 if not thorough else 4)
     for d in core:
         plan.append((d, dict(progs.default_cfg(), mode="proto")))
